@@ -817,7 +817,7 @@ theorem exit_spec (s : St) (k : Nat) (pend : List Nat) (hu : SidU s.tasks) (c : 
   | none =>
     have hg' : s.tasks.find? (·.sid == c.sid) = none := hg
     simp only [hg']
-    refine ⟨?_, rfl, ⟨rfl, rfl, rfl, rfl, rfl, rfl, rfl⟩⟩
+    refine ⟨?_, by simp only [], ⟨rfl, rfl, rfl, rfl, rfl, rfl, rfl⟩⟩
     rw [get_eq_none_iff] at hg
     conv => lhs; rw [← List.filterMap_some (l := s.tasks)]
     apply filterMap_congr'
@@ -838,38 +838,49 @@ theorem exit_spec (s : St) (k : Nat) (pend : List Nat) (hu : SidU s.tasks) (c : 
       · have : x = t := hu.inj hx htm (h.trans hts.symm)
         subst this; exact h1
       · rw [h2 x h]; simp [exitTask, h]
-    by_cases hit : t.inTable = true
-    · by_cases hz : (!t.resched && t.nsim - 1 == 0 && !(pend.contains t.sid)) = true
-      · simp only [hit, hz, Bool.not_true, Bool.false_eq_true, if_false, if_true]
-        refine ⟨?_, ?_, ?_⟩
-        · simp only [unsched]
-          rw [upd_del_tasks, del_tasks_filterMap, addChkpnt_tasks]
-          apply keyc
-          · simp [exitTask, hts, hit, hz]
-          · intro x h; simp [hts, h]
-        · simp [unsched, St.del, addChkpnt_children, St.upd]
-        · have := unsched_frame (({ s with children := kill s.children k } : St).upd { t with nsim := t.nsim - 1 })
-            { t with nsim := t.nsim - 1 }
-          exact ⟨this.me, this.users, this.now, this.nextSid, this.perseq, this.files, this.spawnFail⟩
-      · simp only [hit, hz, Bool.not_true, Bool.false_eq_true, if_false]
+    have hfr : ∀ (tt : DTask), Frame s (unsched (({ s with children := kill s.children k } : St).upd tt) tt) := by
+      intro tt
+      have := unsched_frame (({ s with children := kill s.children k } : St).upd tt) tt
+      exact ⟨this.me, this.users, this.now, this.nextSid, this.perseq, this.files, this.spawnFail⟩
+    split
+    · rename_i hit
+      have hit' : t.inTable = false := by simpa using hit
+      split
+      · rename_i hz
+        have hz' : (t.nsim - 1 == 0) = true := hz
         refine ⟨?_, rfl, ⟨rfl, rfl, rfl, rfl, rfl, rfl, rfl⟩⟩
-        rw [upd_tasks_filterMap]
-        apply keyc
-        · simp [exitTask, hts, hit, hz]
-        · intro x h; simp [hts, h]
-    · have hit' : t.inTable = false := by simpa using hit
-      by_cases hz : (t.nsim - 1 == 0) = true
-      · simp only [hit', hz, Bool.not_false, if_true]
-        refine ⟨?_, rfl, ⟨rfl, rfl, rfl, rfl, rfl, rfl, rfl⟩⟩
+        simp only []
         rw [del_tasks_filterMap]
         apply keyc
-        · simp [exitTask, hts, hit', hz]
+        · simp [exitTask, hts, hit', hz']
         · intro x h; simp [hts, h]
-      · simp only [hit', hz, Bool.not_false, if_true, Bool.false_eq_true, if_false]
+      · rename_i hz
+        have hz' : (t.nsim - 1 == 0) = false := by simpa using hz
         refine ⟨?_, rfl, ⟨rfl, rfl, rfl, rfl, rfl, rfl, rfl⟩⟩
+        simp only []
         rw [upd_tasks_filterMap]
         apply keyc
-        · simp [exitTask, hts, hit', hz]
+        · simp [exitTask, hts, hit', hz']
+        · intro x h; simp [hts, h]
+    · rename_i hit
+      have hit' : t.inTable = true := by simpa using hit
+      split
+      · rename_i hz
+        have hz' : (!t.resched && t.nsim - 1 == 0 && !(pend.contains t.sid)) = true := hz
+        refine ⟨?_, ?_, hfr _⟩
+        · simp only [unsched]
+          rw [del_tasks_filterMap, addChkpnt_tasks, upd_tasks_filterMap, List.filterMap_filterMap]
+          apply keyc
+          · simp [exitTask, hts, hit', hz']
+          · intro x h; simp [hts, h]
+        · simp [unsched, St.del, addChkpnt_children, St.upd]
+      · rename_i hz
+        have hz' : (!t.resched && t.nsim - 1 == 0 && !(pend.contains t.sid)) = false := by simpa using hz
+        refine ⟨?_, rfl, ⟨rfl, rfl, rfl, rfl, rfl, rfl, rfl⟩⟩
+        simp only []
+        rw [upd_tasks_filterMap]
+        apply keyc
+        · simp [exitTask, hts, hit', hz']
         · intro x h; simp [hts, h]
 
 end Echse.Daemon
